@@ -263,6 +263,9 @@ impl OdsCell {
         } else {
             match &self.val {
                 OdsVal::None => {}
+                // with office:string-value the attribute is the value and the paragraphs are only its rendition:
+                // they are written with a different text, so that a reader taking the wrong one is seen
+                OdsVal::Str { text, attr: true } => paragraphs(self.display.as_deref().unwrap_or(&format!("[{}]", text)), pretty, &mut kids),
                 OdsVal::Str { text, .. } => paragraphs(text, pretty, &mut kids),
                 OdsVal::Float(l) | OdsVal::Percentage(l) | OdsVal::Currency(l, _) | OdsVal::Date(l)
                 | OdsVal::Time(l) => paragraphs(self.display.as_deref().unwrap_or(l), pretty, &mut kids),
